@@ -256,9 +256,6 @@ func findingKey(t numType, s string, got, want optZ) string {
 			if s[0] == '-' && z.Sign() == 0 && (t.Bits == 0 || t.Bits > 64) {
 				return "fromString-accept-differs:unsigned-int:minus-zero"
 			}
-			if t.Name == "UInt" && z.Sign() < 0 && got.Z.Cmp(z) == 0 {
-				return "fromString-no-range-check:UInt:negative"
-			}
 		}
 		if t.Fixed {
 			if m := reFix.FindStringSubmatch(s); m != nil && len(m[3]) < t.Scale && !(m[1] == "-" && !t.Signed) {
